@@ -60,7 +60,7 @@ class C05(Check):
                    "dropped, ambient RNG state perturbed, only the folder survives; a sample of restores in a truly fresh interpreter is "
                    "not taken (in-process restore only)", "RL line-ups are outside this property's quantifier (every cut opens a new session)"]
     quick = {"runs": 40, "wall": 40, "item_timeout": 200}
-    thorough = {"runs": 3000, "wall": 900, "item_timeout": 400}
+    thorough = {"runs": 3000, "wall": 900, "item_timeout": 1200}
 
     def gen(self, rng, tier, i):
         cfg = calsim.gen_config(rng, rl_prob=0.0, max_bs=3)
@@ -76,7 +76,7 @@ class C05(Check):
         else:
             costly = sum(1 for s in cfg["lineup"] if s["cls"] in ("cors", "gp", "xgb", "rf"))
             n = rng.choice([2, 3, 3, 4, 4]) if not costly else rng.choice([2, 3, 3] if not heavy else [2, 2, 3])
-            if tier == "thorough" and not heavy and rng.random() < 0.3:
+            if tier == "thorough" and not costly and rng.random() < 0.3:
                 n = 5
             mode = "all"
         scn = {"engine": "calsim", "config": cfg, "env": {"folder": True, "n_jobs": rng.choice([1, 1, 2])}, "n": n, "mode": mode,
